@@ -113,10 +113,39 @@ fn parse(w: &str) -> (usize, Vec<(char, u16, usize)>) {
     let v = rs.split(',').map(|t| { let k = t.chars().next().unwrap(); let (c, l) = t[1..].split_once(':').unwrap(); (k, c.parse().unwrap(), l.parse().unwrap()) }).collect();
     (s, v)
 }
+/// a long pipeline of small requests on one connection (more than the connection buffer holds), delivered in two writes with a
+/// pause at byte `cut` -- so that a request head is split wherever the buffer happens to be: one handler run and one 200 per
+/// request, in order, whatever the buffer management does
+fn longpipe(s: &Server, count: usize, cut: usize) -> Option<String> {
+    let desc = format!("longpipe count={count} cut={cut}");
+    let mut msg = Vec::new();
+    for i in 0..count { msg.extend_from_slice(format!("GET /r/200?{i} HTTP/1.1\r\nx-pad: {}\r\n\r\n", "p".repeat(i % 7)).as_bytes()); }
+    s.log.lock().unwrap().clear();
+    let mut c = TcpStream::connect_timeout(&s.addr, Duration::from_secs(2)).unwrap();
+    c.set_read_timeout(Some(Duration::from_secs(10))).unwrap();
+    let k = cut.min(msg.len());
+    let _ = c.write_all(&msg[..k]); let _ = c.flush();
+    std::thread::sleep(Duration::from_millis(150));
+    let _ = c.write_all(&msg[k..]);
+    let _ = c.shutdown(Shutdown::Write);
+    let mut out = Vec::new();
+    let _ = c.read_to_end(&mut out);
+    let st = statuses(&out);
+    if st.len() != count || st.iter().any(|c| *c != 200) { return Some(format!("{desc} expected={count} responses 200 actual={} responses, last {:?}", st.len(), st.last())); }
+    let runs = s.log.lock().unwrap().len();
+    if runs != count { return Some(format!("{desc} expected={count} handler runs actual={runs}")); }
+    None
+}
 fn main() {
     std::panic::set_hook(Box::new(|_| {}));
     let args: Vec<String> = std::env::args().collect();
     if args.len() >= 3 && args[1] == "replay" {
+        let w = args[2..].join(" ");
+        if w.starts_with("longpipe ") {
+            let g = |k: &str| -> usize { w.split(&format!("{k}=")).nth(1).unwrap().split(' ').next().unwrap().parse().unwrap() };
+            let s = start(100);
+            match longpipe(&s, g("count"), g("cut")) { Some(m) => { println!("WITNESS {m}"); std::process::exit(1) } None => { println!("OK witness no longer fails"); std::process::exit(0) } }
+        }
         let (small, reqs) = parse(&args[2..].join(" "));
         let s = start(small);
         match scenario(&s, small, &reqs) { Some(m) => { println!("WITNESS {m}"); std::process::exit(1) } None => { println!("OK witness no longer fails"); std::process::exit(0) } }
@@ -131,6 +160,10 @@ fn main() {
         for (k1, c1) in &kinds { for (k2, c2) in &kinds { for (l1, l2) in [(0, 0), (small, small + 1), (small + 1, 0), (1, 3 * small + 50)] {
             n += 1; if let Some(w) = scenario(&s, small, &[(*k1, *c1, l1), (*k2, *c2, l2), ('r', 200, 0)]) { if found.len() < 6 { found.push(w) } }
         }}}
+    }
+    {
+        let s = start(100);
+        for cut in [8150usize, 8170, 8185, 8190, 8191, 8192, 8193, 8200, 16380, 4000] { n += 1; if let Some(w) = longpipe(&s, 420, cut) { if found.len() < 6 { found.push(w) } } }
     }
     println!("EVALUATED {n}");
     for f in &found { println!("WITNESS {f}"); }
